@@ -308,5 +308,5 @@ def cross_scenarios(quick, seed, n=None, tag="cross"):
             w["user_mappings"] = [{"start": {"region_map": "data"}, "size": 4096, "name": "/user/lib data.so", "id_hex": "00112233445566778899aabbccddeeff"}]
         if rnd.random() < 0.25:
             w["direct_auxv"] = {"entry": {"module": "libc.so.6", "off": 0x100}}
-        scns.append({"id": f"{tag}/{k}", "target": tgt, "writer": w, "want_regs": True, "want_stacks": True, "faults": {"start": rnd.choice([0, 0, 5, 4096]), "pre_len": rnd.choice([0, 300000])}})
+        scns.append({"id": f"{tag}/{k}", "target": tgt, "writer": w, "want_regs": True, "want_stacks": True, "want_modules": True, "faults": {"start": rnd.choice([0, 0, 5, 4096]), "pre_len": rnd.choice([0, 300000])}})
     return scns
